@@ -140,7 +140,7 @@ def check_flatten():
     from streamz import Stream
     from streamz.core import RefCounter
     cases, failures = 0, []
-    alphabet = [0, 1, 'a']
+    alphabet = [0, 1, 'a', None]
     for n in range(0, 5):
         for pieces in itertools.product(alphabet, repeat=n):
             for kind in ('list', 'tuple', 'generator'):
@@ -244,7 +244,7 @@ def main():
         out['failures'] = out['failures'] + f
         out['samples'] = out['samples'] + smp
         out['ops'] = out['ops'] + ['flatten.update']
-        out['space'] = (out['space'] + '; ' if out['space'] else '') + 'flatten: every batch of <= 4 pieces over {0, 1, "a"} as list / tuple / generator, with and without a reference-counted metadata entry'
+        out['space'] = (out['space'] + '; ' if out['space'] else '') + 'flatten: every batch of <= 4 pieces over {0, 1, "a", None} as list / tuple / generator, with and without a reference-counted metadata entry'
     if pid in ('C13', 'C08'):
         c, f, smp = check_convert_interval()
         out.update({'cases': c, 'distinct': c, 'failures': f, 'samples': smp, 'ops': ['convert_interval'],
